@@ -107,7 +107,18 @@ def gap_class(gap):
     return "<0.05" if gap < 0.05 else "<0.5" if gap < 0.5 else ">=0.5"
 
 
-UNBOUNDED = "fitted Weibull shape < 1 with free location: the likelihood is unbounded, no maximiser exists"
+UNBOUNDED = ("generating Weibull shape < 1.3 with free location and fitted shape < 1: the likelihood is unbounded, "
+             "no maximiser exists")
+UNBOUNDED_TRUTH_BETA = 1.3
+NEGATIVE_C = "fitted c < 0: scipy.stats.gengamma is also a law for negative c, the search is unconstrained"
+
+
+def unbounded_class(case, *fitted):
+    """the known input class of the 3-parameter Weibull: keyed on the CASE (generating shape below 1.3 - where samples
+    of 100..5000 points can have a likelihood spike at the smallest observation -, location free) and only then on the
+    fitted shape; a fit that ends below shape 1 on data from a clearly regular member (shape >= 1.3) is NOT in the class"""
+    return (case["family"] == "Weibull" and "gamma" not in case.get("fixed", ()) and case.get("data_family") is None
+            and case["truth"]["beta"] < UNBOUNDED_TRUTH_BETA and any(f["beta"] < 1.0 for f in fitted))
 
 
 def draw_truth(name, rng):
@@ -157,6 +168,32 @@ def draw_user_start(name, truth, rng):
                 out[p] = float(truth[p] + u(-1, 1) * truth["scale"])
             else:  # keep the start inside the support of the data: move the location to the left
                 out[p] = float(truth[p] - u(0, 0.3) * scale_ref)
+    return out
+
+
+def draw_far_start(name, truth, rng):
+    """a poor user guess: shapes / scales off by a factor of up to ~3.3 (locations moved further into the left of the data)"""
+    u = rng.uniform
+    out = {}
+    scale_ref = 1.0
+    for p, kind in KINDS[name].items():
+        v = truth[p]
+        if kind in ("shape", "scale", "invscale"):
+            out[p] = float(v * math.exp(u(0.5, 1.2) * float(rng.choice([-1, 1]))))
+            if kind == "scale":
+                scale_ref = v
+        elif kind == "logscale":
+            out[p] = float(v + u(0.5, 1.2) * float(rng.choice([-1, 1])))
+        elif kind == "angle":
+            out[p] = float(v + u(0.8, 2.5) * float(rng.choice([-1, 1])))
+    for p, kind in KINDS[name].items():
+        if kind == "loc":
+            if name == "Normal":
+                out[p] = float(truth[p] + u(2, 5) * truth["sigma"] * float(rng.choice([-1, 1])))
+            elif name == "ScipyGumbel":
+                out[p] = float(truth[p] + u(2, 5) * truth["scale"] * float(rng.choice([-1, 1])))
+            else:
+                out[p] = float(truth[p] - u(0.3, 1.5) * scale_ref)
     return out
 
 
@@ -214,11 +251,31 @@ def tol_of(*lls):
 
 # --------------------------------------------------------------------------- (C) oracle on the real code
 
-def fit_once(name, start, x):
+CALLS = ("fit(x)", "fit(x, 'mle')", "fit(x, method='MLE')", "fit(x, 'mle', 'quadratic')", "fit(x, method='Mle', weights=None)")
+
+
+def as_container(x, container):
+    """the data as handed to `fit`: float ndarray (default) or a Python list (array_like)"""
+    return [float(v) for v in x] if container == "list" else x
+
+
+def fit_once(name, start, x, call=0, container=None):
+    """`call` selects how the (same) maximum-likelihood fit is requested: Distribution.fit dispatches on `method`
+    case-insensitively and ignores `weights` for maximum likelihood"""
     d = make(name, start)
+    x = as_container(x, container)
     with warnings.catch_warnings(), np.errstate(all="ignore"):
         warnings.simplefilter("ignore")
-        d.fit(x)
+        if call == 1:
+            d.fit(x, "mle")
+        elif call == 2:
+            d.fit(x, method="MLE")
+        elif call == 3:
+            d.fit(x, "mle", "quadratic")
+        elif call == 4:
+            d.fit(x, method="Mle", weights=None)
+        else:
+            d.fit(x)
     return d
 
 
@@ -267,6 +324,53 @@ def gen_cases(rng, n_draws, ns, names=None):
                     yield case
 
 
+def gen_variant_cases(rng, n_draws, ns):
+    """own-family data as before, but (a) the fit requested through the other spellings of the dispatch
+    (`method='mle'` positional / 'MLE' / 'Mle', non-None weights with maximum likelihood), (b) the data handed over as a
+    Python list, (c) a far-away user start (only the clauses about the start, finiteness and admissibility get a verdict
+    there: whether Nelder-Mead then still reaches the generating parameters' likelihood is observed and counted)"""
+    for name in KINDS:
+        for k in range(n_draws):
+            truth = {kk: float(v) for kk, v in draw_truth(name, rng).items()}
+            case = {"part": "C", "family": name, "truth": truth, "n": int(rng.choice(ns)), "seed": int(rng.integers(0, 2 ** 31)),
+                    "start_kind": "default" if name == "LogNormalNormFit" else str(rng.choice(["default", "user"])),
+                    "aux_seed": int(rng.integers(0, 2 ** 31)), "call": 1 + k % 4}
+            if k % 2:
+                case["container"] = "list"
+            yield case
+            if name != "LogNormalNormFit":
+                yield {"part": "C", "family": name, "truth": truth, "n": int(rng.choice(ns)), "seed": int(rng.integers(0, 2 ** 31)),
+                       "start_kind": "user_far", "aux_seed": int(rng.integers(0, 2 ** 31))}
+
+
+FOREIGN = {  # family fitted -> families the data may come from instead (same kind of support)
+    "Weibull": ["LogNormal", "GenGamma", "ExpWeibull"], "LogNormal": ["Weibull", "GenGamma", "ExpWeibull"],
+    "LogNormalNormFit": ["Weibull", "GenGamma"], "ExpWeibull": ["LogNormal", "GenGamma", "Weibull"],
+    "GenGamma": ["LogNormal", "Weibull", "ExpWeibull"], "ScipyGamma": ["LogNormal", "Weibull"],
+    "Normal": ["ScipyGumbel", "LogNormal", "Weibull"], "ScipyGumbel": ["Normal", "LogNormal", "Weibull"],
+    "VonMises": ["Normal"],
+}
+
+
+def gen_foreign_cases(rng, n_draws, ns):
+    """the clause "not lower than under the starting parameters" does not need data from the family: samples of ANOTHER
+    family, rounded samples (ties) and whole-number samples handed over as an integer-dtype ndarray; verdict on
+    fit_completes, ll_fit_ge_ll_start, parameters_finite_admissible only"""
+    for name in KINDS:
+        for k in range(n_draws):
+            src = str(rng.choice(FOREIGN[name])) if k % 3 != 2 else name
+            truth = {kk: float(v) for kk, v in draw_truth(src, rng).items()}
+            if src == "Weibull":
+                truth["gamma"] = 0.0
+            case = {"part": "C", "family": name, "truth": truth, "data_family": src, "n": int(rng.choice(ns)),
+                    "seed": int(rng.integers(0, 2 ** 31)), "start_kind": "default" if (k % 2 or name == "LogNormalNormFit") else "user",
+                    "aux_seed": int(rng.integers(0, 2 ** 31)),
+                    "data_form": ["float", "rounded", "whole"][k % 3] if name != "VonMises" else "float"}
+            if case["start_kind"] == "user":
+                case["user_truth"] = {kk: float(v) for kk, v in draw_truth(name, rng).items()}
+            yield case
+
+
 def draw_concentrated_truth(name, rng):
     """regular members whose samples are concentrated (densities above 1, POSITIVE log-likelihood, i.e. a negative value
     of the function the optimiser minimises) while the data stay within [0.05, 20]"""
@@ -302,8 +406,6 @@ def gen_fixed_cases(rng, n_draws, ns):
     remaining parameters are estimated by maximum likelihood, so the likelihood must not fall below that of the start
     values nor - the generating parameters being admissible for the constrained problem - below the generating ones"""
     for name in KINDS:
-        if name in ("LogNormalNormFit", "VonMises"):
-            continue
         pars = list(KINDS[name])
         for _ in range(n_draws):
             truth = {k: float(v) for k, v in draw_truth(name, rng).items()}
@@ -321,6 +423,29 @@ def gen_fixed_cases(rng, n_draws, ns):
                    "start_kind": "fixed", "fixed": fixed, "aux_seed": int(rng.integers(0, 2 ** 31))}
 
 
+POSITIVE_SUPPORT = {"Weibull", "LogNormal", "LogNormalNormFit", "ExpWeibull", "GenGamma", "ScipyGamma"}
+
+
+def case_data(case):
+    """the sample of a case: drawn from the family itself, or (`data_family`) from another family; `data_form`
+    "rounded" = one decimal (ties), "whole" = whole numbers, handed to `fit` as an integer-dtype ndarray"""
+    name = case["family"]
+    src = case.get("data_family") or name
+    x = sample(src, case["truth"], case["n"], case["seed"])
+    if name == "VonMises" and src != name:
+        x = (x + np.pi) % (2 * np.pi) - np.pi
+    form = case.get("data_form") or "float"
+    if form == "rounded":
+        x = np.round(x, 1)
+        if name in POSITIVE_SUPPORT:
+            x = np.maximum(x, 0.1)
+    elif form == "whole":
+        x = np.ceil(x) if name in POSITIVE_SUPPORT else np.round(x)
+        if name in POSITIVE_SUPPORT:
+            x = np.maximum(x, 1.0)
+    return x
+
+
 def eval_case(case, argmax_start=None):
     """
     runs the real code for one case; returns dict(skip=...) or dict(bad=[(predicate, detail)], fits..., lls...)
@@ -329,25 +454,35 @@ def eval_case(case, argmax_start=None):
     name = case["family"]
     truth = case["truth"]
     rng = np.random.default_rng(case["aux_seed"])
-    x = sample(name, truth, case["n"], case["seed"])
+    x = case_data(case)
+    own = case.get("data_family") in (None, name) and (case.get("data_form") or "float") == "float"
+    # clauses with a verdict: everything for samples of the family itself from default / user / fixed starts; only the
+    # clauses that do not need the generating parameters for other data and for far-away user starts
+    full = own and case["start_kind"] != "user_far"
     med = float(np.median(np.abs(x)))
     out = {"bad": [], "median": med, "fits": {}, "ll": {}}
     if not (DATA_SCALE[0] <= med <= DATA_SCALE[1]):
         out["skip"] = "data scale outside [0.05, 20]"
         return out
-    scalable = name != "VonMises"
+    scalable = name != "VonMises" and full
     c = choose_c(med, rng) if scalable else 1.0
     out["c"] = c
     if case["start_kind"] == "default":
         start = None
     elif case["start_kind"] == "user":
-        start = draw_user_start(name, truth, rng)
+        start = draw_user_start(name, case.get("user_truth") or truth, rng)
+    elif case["start_kind"] == "user_far":
+        start = draw_far_start(name, truth, rng)
     elif case["start_kind"] == "fixed":
         start = {"f_" + p: truth[p] for p in case["fixed"]}
     else:
         start = None if argmax_start is None else argmax_start.get("x")
     out["start"] = start
-    datasets = [("x", x, truth, start)]
+    if not own and start is not None and not math.isfinite(loglik(make(name, start), x)):
+        out["skip"] = "user start inadmissible for these data"
+        return out
+    datasets = [("x", x, truth if own else None, start)]
+    container = "int" if case.get("data_form") == "whole" else case.get("container")
     if scalable:
         if case["start_kind"] == "argmax":
             start_c = None if argmax_start is None else argmax_start.get("cx")
@@ -364,37 +499,55 @@ def eval_case(case, argmax_start=None):
         try:
             d0 = make(name, st)
             ll_start = loglik(d0, data)
-            d = fit_once(name, st, data)
+            d = fit_once(name, st, data.astype(np.int64) if container == "int" else data, case.get("call", 0),
+                         container)
         except Exception as e:  # noqa: BLE001
-            out["bad"].append(("fit_completes", f"{tag}: {type(e).__name__}: {e}", {}))
+            how = CALLS[case.get("call", 0)] + (f", data as {container}" if container else "")
+            out["bad"].append(("fit_completes", f"{tag}: {how}: {type(e).__name__}: {e}", {}))
             continue
         pars = {k: float(v) for k, v in d.parameters.items()}
         fitted[tag] = pars
         out["fits"][tag] = pars
         ok, why = admissible(name, pars)
         if not ok:
-            out["bad"].append(("parameters_finite_admissible", f"{tag}: fitted {pars}: {why}", {}))
+            extra = {}
+            if name == "GenGamma" and not full and all(math.isfinite(v) for v in pars.values()) \
+                    and pars["c"] < 0 and pars["m"] > 0 and pars["lambda_"] > 0:
+                # keyed on the case: far-away user start, or data that are not a float sample of the family itself
+                extra = {"input_class": NEGATIVE_C, "start": "far-away user start or data of another family"}
+            out["bad"].append(("parameters_finite_admissible", f"{tag}: start {st}, fitted {pars}: {why}", extra))
             continue
+        if name == "LogNormalNormFit":
+            # what CAN be demanded of this family's fit (documented: "fitting via the moments of the data"): the free
+            # parameters are the sample mean and the ddof-1 standard deviation, a fixed one keeps its value
+            doc = {"mu_norm": float(np.mean(data)), "sigma_norm": float(np.std(data, ddof=1))}
+            for p_ in ("mu_norm", "sigma_norm"):
+                want = st["f_" + p_] if (st and "f_" + p_ in st) else doc[p_]
+                if not rel_close(pars[p_], want, 1e-12):
+                    out["bad"].append(("moment_estimator", f"{tag}: {p_} = {pars[p_]!r}, documented estimate {want!r} "
+                                                            f"(fixed: {sorted(st) if st else []})", {}))
         ll_fit = loglik(d, data)
-        ll_truth = loglik(make(name, tr), data)
+        ll_truth = loglik(make(name, tr), data) if tr is not None else -math.inf
         out["ll"][tag] = {"start": ll_start, "fit": ll_fit, "truth": ll_truth}
         if not math.isfinite(ll_fit):
             out["bad"].append(("parameters_finite_admissible",
                                f"{tag}: fitted {pars} give log-likelihood {ll_fit} (density vanishes on the data)", {}))
             continue
         tol = tol_of(ll_fit, ll_truth)
-        unb = {"input_class": UNBOUNDED} if name == "Weibull" and pars["beta"] < 1.0 else None
+        unb = {"input_class": UNBOUNDED} if unbounded_class(case, pars) else None
         if not ll_fit >= ll_start - tol:
             out["bad"].append(("ll_fit_ge_ll_start",
                                f"{tag}: LL(fit)={ll_fit!r} < LL(start)={ll_start!r} - {tol:.3g}; start={st}, fit={pars}",
                                unb or {"ll_gap": gap_class(ll_start - ll_fit)}))
-        if case["start_kind"] != "argmax" and not ll_fit >= ll_truth - tol:
+        if not full and own and not ll_fit >= ll_truth - tol:
+            out["observed_below_truth"] = True  # far-away user start: counted, no verdict
+        if full and case["start_kind"] != "argmax" and not ll_fit >= ll_truth - tol:
             out["bad"].append(("ll_fit_ge_ll_truth",
                                f"{tag}: LL(fit)={ll_fit!r} < LL(truth)={ll_truth!r} - {tol:.3g} "
                                f"(loses {ll_truth - ll_fit:.4g}); truth={tr}, fit={pars}, "
                                f"data median {float(np.median(data)):.3g} min {float(data.min()):.3g}",
                                unb or {"ll_gap": gap_class(ll_truth - ll_fit)}))
-    if scalable and "x" in fitted and "cx" in fitted and case["start_kind"] not in ("argmax", "fixed"):
+    if scalable and "x" in fitted and "cx" in fitted and case["start_kind"] != "argmax":
         back = scale_params(name, fitted["cx"], 1.0 / c)
         dev = {}
         for p, kind in KINDS[name].items():
@@ -419,7 +572,7 @@ def eval_case(case, argmax_start=None):
             tol = tol_of(ll_a) if math.isfinite(ll_a) else 0.0
             gap = ll_a - ll_b
             out["equiv_ll_gap"] = gap
-            unb = name == "Weibull" and min(fitted["x"]["beta"], fitted["cx"]["beta"]) < 1.0
+            unb = unbounded_class(case, fitted["x"], fitted["cx"])
             err_x = err_cx = 0.0
             if not abs(gap) <= tol and not unb and name not in CLOSED_FORM:
                 err_x = polish_gain(name, fitted["x"], x)
@@ -564,6 +717,83 @@ def fit_lines(name, x):
     return lines + [" ".join(run + data)]
 
 
+def fit_lines_fixed(name, which, val, x):
+    """closed forms with one parameter fixed (Model/Likelihood.lean normalFitFixedLoc / …Scale, lognormalFitFixedMu /
+    …Sigma): TABLE leaves at the arguments the model computes, evaluated with the calls the code path uses"""
+    x = np.asarray(x, dtype=float)
+    xl = x.tolist()
+    n = float(len(xl))
+    data = [str(len(xl))] + [str(f2b(v)) for v in xl]
+    lines = ["CLEAR"]
+    with np.errstate(all="ignore"):
+        if name == "Normal":
+            run = ["RUN", "fit", "normal_floc", str(f2b(val))] if which == "mu" else ["RUN", "fit", "normal_fscale"]
+        else:
+            lnd = np.log(x)
+            lines += _tab_vec("log", x, lnd)
+            if which == "mu":
+                e = math.exp(val)  # virocon: fscale = math.exp(self.f_mu); scipy then takes np.log(scale)
+                lines += [_t("exp", val, e), _t("log", e, float(np.log(np.float64(e))))]
+                run = ["RUN", "fit", "lognormal_fmu", str(f2b(val))]
+            else:
+                m = _foldr_sum(lnd.tolist()) / n
+                e = float(np.exp(np.float64(m)))
+                lines += [_t("exp", m, e), _t("log", e, float(np.log(np.float64(e))))]
+                run = ["RUN", "fit", "lognormal_fsigma"]
+    return lines + [" ".join(run + data)]
+
+
+def correspond_fixed_closed_forms(ck, rng, reps, ns):
+    """(B') Normal / LogNormal with ONE parameter fixed (scipy's floc / fscale / f0 branches): real fit vs the Lean closed
+    form of the free parameter (theorems normal_fixed_loc_is_argmax & co. are about these models)"""
+    jobs, keep = [], []
+    for name in ("Normal", "LogNormal"):
+        for which in ("mu", "sigma"):
+            for _ in range(reps):
+                truth = {k: float(v) for k, v in draw_truth(name, rng).items()}
+                n = int(rng.choice(ns))
+                seed = int(rng.integers(0, 2 ** 31))
+                x = sample(name, truth, n, seed)
+                val = float(truth[which] * (1.0 if rng.integers(0, 2) else math.exp(rng.uniform(-0.3, 0.3))))
+                if which == "mu" and rng.integers(0, 4) == 0:
+                    val = 0.0
+                case = {"part": "B", "family": name, "truth": truth, "n": n, "seed": seed, "fixed": which, "value": val,
+                        "data_head": x[:5].tolist()}
+                try:
+                    d = fit_once(name, {"f_" + which: val}, x)
+                except Exception as e:  # noqa: BLE001
+                    ck.case(case, nontrivial=True, sample=False)
+                    ck.fail({"entry": entry(name), "predicate": "fit_completes"}, case, f"f_{which}={val!r}: {type(e).__name__}: {e}")
+                    continue
+                jobs.append(fit_lines_fixed(name, which, val, x))
+                keep.append((case, name, which, val, d, x))
+    answers = run_model(ck, jobs)
+    for (case, name, which, val, d, x), a in zip(keep, answers):
+        ck.case(case, nontrivial=True, sample=False)
+        ck.count("B_fixed=" + name + ":f_" + which)
+        free = "sigma" if which == "mu" else "mu"
+        if a[0] != "OK":
+            ck.diverge("closed-form-fit-fixed-" + name, case, "model: " + " ".join(a))
+            continue
+        mv = b2f(a[1])
+        impl = float(getattr(d, free))
+        kept = float(getattr(d, which))
+        worst = abs(impl - mv) / max(abs(impl), abs(mv), 1.0 if free == "mu" else 1e-300)
+        ck.extra["max_rel_closed_form_diff"] = max(ck.extra.get("max_rel_closed_form_diff", 0.0), worst)
+        if kept != val:
+            ck.fail({"entry": entry(name), "predicate": "parameters_finite_admissible"}, case,
+                    f"f_{which}={val!r} but {which}={kept!r} after the fit")
+        elif worst > 1e-12:
+            detail = f"f_{which}={val!r}: fit gives {free}={impl!r}, Lean closed form {mv!r} (relative {worst:.3g})"
+            alt = make(name, {which: val, free: mv})
+            ll_i, ll_m = loglik(d, x), loglik(alt, x)
+            if ll_i < ll_m - tol_of(ll_i, ll_m):
+                ck.fail({"entry": entry(name), "predicate": "ll_fit_ge_ll_start"}, case,
+                        detail + f"; LL(fit)={ll_i!r} < LL(start at the constrained closed-form maximiser)={ll_m!r}")
+            else:
+                ck.diverge("closed-form-fit-fixed-" + name, case, detail)
+
+
 def run_model(ck, jobs):
     """jobs: list of line lists, each ending in exactly one RUN line; returns the answers (token lists)"""
     flat = [l for job in jobs for l in job]
@@ -606,6 +836,17 @@ def register(ck, case, res):
     ck.count("C_start=" + case["start_kind"])
     if case.get("regime"):
         ck.count("C_regime=" + case["regime"])
+    ck.count("C_call=" + CALLS[case.get("call", 0)])
+    ck.count("C_data=" + (case.get("data_family") and case["data_family"] != name and "other-family" or "own-family") + ":"
+             + (case.get("data_form") or "float") + ":" + ("int64 ndarray" if case.get("data_form") == "whole" else
+                                                          case.get("container") or "float ndarray"))
+    if case["start_kind"] == "fixed":
+        ck.count("C_fixed_family=" + name)
+    if res.get("observed_below_truth"):
+        ck.count("C_observed_no_verdict:far_start_below_truth")
+    if res.get("skip") == "user start inadmissible for these data":
+        ck.count("C_skipped_inadmissible_user_start")
+        return
     ck.count("C_n=" + str(case["n"]))
     if "error" in res:
         raise RuntimeError("harness error in case " + repr(case) + ": " + res["error"])
@@ -621,7 +862,7 @@ def register(ck, case, res):
         sig = {"entry": entry(name), "predicate": pred}
         if name not in CLOSED_FORM and name != "VonMises":
             # iterative fits: the signature also names the start values and the magnitude class / input class
-            sig["start"] = case["start_kind"] if case["start_kind"] in ("user", "fixed") else "default"
+            sig["start"] = case["start_kind"] if case["start_kind"] in ("user", "fixed", "user_far") else "default"
             sig.update(extra)
         ck.fail(sig, case, detail)
         ck.count("C_oracle_failure=" + name + ":" + pred)
@@ -725,11 +966,19 @@ def main(ck):
     thorough = ck.tier == "thorough"
     ck.rule = ("(C) 9 families (7 shipped + gamma / shape-less Gumbel ScipyDistribution subclasses) x parameter draws from the regular region x n x {default, user(, arg-max)} start values, "
                "each fitted on the sample and on c*sample (median |data| and c*median within [0.05, 20]); non-trivial = "
-               "the fit ran and produced parameters; (A) Lean log-likelihood vs sum(log pdf) at generating and fitted "
-               "parameters; (B) closed-form estimators vs the real fit; distinct by SHA1 of the case")
+               "the fit ran and produced parameters; plus: a non-empty proper subset of parameters fixed at the generating "
+               "values (all 9 families, scale equivariance included); concentrated samples; the same fits requested as "
+               "fit(x, 'mle') / method='MLE' / 'Mle' / with non-None weights, data as a Python list; far-away user starts "
+               "(factor 1.6..3.3) and samples of OTHER families / rounded (ties) / whole numbers as int64 ndarray, where only "
+               "fit_completes, ll_fit_ge_ll_start and parameters_finite_admissible get a verdict; (A) Lean log-likelihood vs "
+               "sum(log pdf) at generating and fitted "
+               "parameters; (B) closed-form estimators vs the real fit, also with one parameter fixed (floc / fscale / f0 "
+               "branches of norm.fit and lognorm.fit); distinct by SHA1 of the case")
     ck.assumptions = [
         "data scale = median |data|; samples whose median leaves [0.05, 20] are skipped (counted)",
-        "user start values = generating values perturbed by up to ~40 % (locations moved into the support)",
+        "user start values = generating values perturbed by up to ~40 % (locations moved into the support); far-away "
+        "user starts (factor 1.6..3.3): whether the search still reaches the generating parameters' likelihood is counted, "
+        "no verdict; data of another family with a user start that has no density on them: skipped (counted)",
         "scale_equivariant accepts parameter agreement (1e-3 shapes / 1e-4 scales); otherwise the log-likelihood gap "
         "between fit(x) and the rescaled fit(c*x) on x must be within 1e-6 (1+|LL|) + the measured optimiser error of the "
         "two fits (gain of restarting the real fit from its own result, accepted up to 0.5 log-likelihood units): by "
@@ -742,6 +991,15 @@ def main(ck):
         "scale equivariance of the iterative fits": "observed; the theorems say what the exact maximiser satisfies",
         "von Mises": "scipy's analytic fit (circular mean, Bessel-ratio root) observed against start and truth",
         "finite and admissible parameters of the iterative fits": "observed",
+        "LogNormalNormFit": "its fit is the documented moment estimator (Lean: normfit_is_moment_estimator), not a maximum of "
+                            "the likelihood: ll_fit_ge_ll_truth is a known finding, ll_fit_ge_ll_start is vacuous from the "
+                            "default start (mu_norm = 0 has no density); what is checked live is moment_estimator (mean, "
+                            "ddof-1 std, fixed values kept) and correspondence (B) with the Lean closed form",
+        "families": "9 families (7 shipped, gamma and Gumbel ScipyDistribution subclasses). A 4-parameter beta subclass "
+                    "(bounded support with free end points) is NOT covered: the fixed default start (loc 0, scale 1) has no "
+                    "density for data beyond [0, 1], and inside [0, 1] the likelihood is unbounded at the end points",
+        "known-finding class of the 3-parameter Weibull": "keyed on the case (generating shape < 1.3, location free) and "
+                                                          "then on the fitted shape < 1; not on the fitted output alone",
     }
     run_corpus(ck)
     n_draws = 150 if thorough else 16
@@ -749,6 +1007,8 @@ def main(ck):
     cases = list(gen_cases(rng, n_draws, ns))
     cases += list(gen_fixed_cases(np.random.default_rng([ck.seed, 12]), 40 if thorough else 6, ns))
     cases += list(gen_concentrated_cases(np.random.default_rng([ck.seed, 13]), 30 if thorough else 5, ns))
+    cases += list(gen_variant_cases(np.random.default_rng([ck.seed, 14]), 24 if thorough else 4, ns))
+    cases += list(gen_foreign_cases(np.random.default_rng([ck.seed, 15]), 24 if thorough else 3, ns))
     plain = [c for c in cases if c["start_kind"] != "argmax"]
     special = [c for c in cases if c["start_kind"] == "argmax"]
     if thorough:
@@ -764,10 +1024,12 @@ def main(ck):
         if "skip" in res or "x" not in res.get("fits", {}):
             continue
         # (A) likelihood correspondence at the generating and the fitted parameters
-        if case["n"] <= 1000 and (not thorough or k % 3 == 0):
+        if case["n"] <= 1000 and (not thorough or k % 3 == 0) and case.get("data_family") in (None, case["family"]) \
+                and (case.get("data_form") or "float") == "float":
             x = sample(case["family"], case["truth"], case["n"], case["seed"])
             ll_items.append((case, case["family"], case["truth"], x, "truth"))
-            ll_items.append((case, case["family"], res["fits"]["x"], x, "fit"))
+            if admissible(case["family"], res["fits"]["x"])[0]:  # (else reported by the oracle; log c etc. undefined)
+                ll_items.append((case, case["family"], res["fits"]["x"], x, "fit"))
     for case in special:
         am = closed_form_argmax(ck, case)
         res = eval_case(case, argmax_start=am) if am else {"skip": "data scale", "bad": [], "fits": {}}
@@ -785,6 +1047,8 @@ def main(ck):
             small.append((case, name, truth, sample(name, truth, n, seed), "truth"))
     correspond_ll(ck, small)
     correspond_closed_forms(ck, rng, 60 if thorough else 12, [2, 3, 10, 100, 1000] + ([5000] if thorough else []))
+    correspond_fixed_closed_forms(ck, np.random.default_rng([ck.seed, 16]), 30 if thorough else 6,
+                                  [2, 3, 10, 100, 1000] + ([5000] if thorough else []))
 
 
 def replay(ck, payload):
@@ -796,6 +1060,16 @@ def replay(ck, payload):
             print("oracle:", pred, detail)
         print("fits:", res.get("fits"), "log-likelihoods:", res.get("ll"))
         return not res["bad"]
+    if case.get("part") == "B" and "fixed" in case:
+        name, which, val = case["family"], case["fixed"], case["value"]
+        x = sample(name, case["truth"], case["n"], case["seed"])
+        d = fit_once(name, {"f_" + which: val}, x)
+        ans = run_model(ck, [fit_lines_fixed(name, which, val, x)])[0]
+        free = "sigma" if which == "mu" else "mu"
+        print("implementation:", {free: float(getattr(d, free)), which: float(getattr(d, which))}, "Lean closed form:",
+              b2f(ans[1]) if ans[0] == "OK" else ans)
+        return ans[0] == "OK" and float(getattr(d, which)) == val and (
+            rel_close(float(getattr(d, free)), b2f(ans[1]), 1e-12) or abs(float(getattr(d, free)) - b2f(ans[1])) <= 1e-12)
     if case.get("part") == "B":
         name = case["family"]
         x = sample(name, case["truth"], case["n"], case["seed"]) * case.get("mult", 1.0)
